@@ -105,6 +105,14 @@ def check_lzma(inp):
         fo.flush()
         raise Boom('disk full / interrupted')
       downloads.shutil.copyfileobj = bad_copy
+    # what is ON DISK under the temporary name when it is renamed is what a kill right after the rename leaves behind
+    real_rename = downloads.os.rename
+    at_rename = []
+
+    def checked_rename(a, b, *aa, **kk):
+      at_rename.append(os.path.getsize(a))
+      return real_rename(a, b, *aa, **kk)
+    downloads.os.rename = checked_rename
     try:
       try:
         downloads.maybe_lzma_decompress(src)
@@ -112,6 +120,10 @@ def check_lzma(inp):
         pass
     finally:
       downloads.shutil.copyfileobj = real_copy
+      downloads.os.rename = real_rename
+    if fail_after is None and at_rename and at_rename[0] != size:
+      return (f'the decompressed file is renamed to its final name while only {at_rename[0]} of {size} bytes are on disk '
+              '(not yet flushed / closed): a kill or an I/O error at that point leaves a truncated file under the final name')
     if os.path.exists(final) and open(final, 'rb').read() != content:
       return (f'interrupted decompression after {fail_after} bytes left {final} with '
               f'{os.path.getsize(final)} of {size} bytes under the final name')
